@@ -31,13 +31,19 @@ for p in props:
         "level_claimed": {"category": "proof",
                           "text": getattr(m, "LEVEL_TEXT", "") or ("Every obligation generated from the current source of the functions under contract (%s) is "
                                   "discharged by z3/cvc5 for all inputs and all loop iterations; the property is tied to them by contract-only lemmas / "
-                                  "refinement obligations. Partial: clauses listed under not_carried in the evidence are not decided." % ", ".join(units)),
-                          "design_ref": "DESIGN.md section 6 (%s)" % pid},
+                                  "refinement obligations. Partial: clauses listed under not_carried in the evidence are not decided." % ", ".join(units))
+                                 + (" A bounded stand-in on the real code (labelled bounded in the evidence, never counted as proved) additionally "
+                                    "searches small scopes for a concrete failing input." if hasattr(m, "bounded") else ""),
+                          "design_ref": "DESIGN.md sections 6 and 11 (%s)" % pid},
+        "_drop": {},
         "level_note": getattr(m, "LEVEL_NOTE", "") or ("Trusted: the pyvc encoder's Python semantics (DESIGN 2.3-2.5, 5), z3/cvc5, assumed contracts of externals and "
                                 "component bodies as listed in the evidence file; termination not proved. Not carried: " + "; ".join(getattr(m, "NOT_CARRIED", []))),
         "technique": getattr(m, "TECHNIQUE", "contract-based deductive verification: VCs generated from the Python AST of the real functions against sidecar "
-                             "contracts (pre/post, loop invariants, ghost state, frames), discharged by z3 with cvc5 fallback; finite-scope counter-models"),
+                             "contracts (pre/post, loop invariants, ghost state, frames), discharged by z3 with cvc5 fallback; finite-scope counter-models"
+                             + ("; bounded exhaustive stand-in on the real code (labelled)" if hasattr(m, "bounded") else "")),
     })
+for c in checks:
+    c.pop("_drop", None)
 man = {
     "version": 1,
     "setup_cmd": "./setup.sh",
